@@ -129,7 +129,7 @@ def block(draw, name, nrexcl, syntax, names=None, max_atoms=5, resname=None, non
                 if key in used:
                     continue
                 used.add(key)
-                nterm = draw(st.sampled_from([1, 1, 1, 2])) if sec == "dihedrals" else 1
+                nterm = draw(st.sampled_from([1, 1, 1, 2, 3, 4])) if sec == "dihedrals" else 1
                 if syntax == "itp" and not ITP_MULTITERM:
                     nterm = 1
                 if nterm == 1:
@@ -149,7 +149,11 @@ def block(draw, name, nrexcl, syntax, names=None, max_atoms=5, resname=None, non
                     if sec in ("pairs", "exclusions") and set(sel) in [set(i["atoms"]) for i in inter if i["sec"] == sec]:
                         continue
                     inter.append(draw(interaction(sec, sel)))
-    return {"name": name, "nrexcl": nrexcl, "syntax": syntax, "atoms": atoms, "inter": inter}
+    out = {"name": name, "nrexcl": nrexcl, "syntax": syntax, "atoms": atoms, "inter": inter}
+    if syntax == "ff" and any(it["meta"].get("version", 1) > 1 for it in inter) and draw(st.integers(0, 2)) == 0:
+        # same-atom terms written without version tags (they are told apart by their position)
+        out["untag"] = True
+    return out
 
 
 ORDER_SETS = [
@@ -348,7 +352,7 @@ def residue_graph(draw, resnames, max_res=8, label_pool=(), routes=("json", "jso
                   min_res=1, name_modes=("homo", "block", "random")):
     n = draw(st.integers(min_res, max_res))
     kind, edges = draw(graph_shape(n))
-    start = draw(st.sampled_from([1, 1, 1, 2, 5, 17]))
+    start = draw(st.sampled_from([1, 1, 1, 0, 2, 5, 17]))
     route = draw(st.sampled_from(routes))
     if kind != "linear":
         route = "json"
@@ -367,7 +371,7 @@ def residue_graph(draw, resnames, max_res=8, label_pool=(), routes=("json", "jso
     keymode = draw(st.sampled_from(["plain", "plain", "offset", "perm"])) if route == "json" else "plain"
     if keymode == "plain":
         ids = list(range(n))
-        if start != 1:
+        if start > 1:
             ids = [start - 1 + i for i in range(n)]
     elif keymode == "offset":
         off = draw(st.integers(1, 20))
@@ -524,7 +528,8 @@ def render_ff_block(blk):
         for it in items:
             names = [blk["atoms"][a]["name"] for a in it["atoms"]]
             sep = ["--"] if sec == "exclusions" and False else []
-            lines.append(" ".join(names + sep + it["params"] + ([_meta_json(it["meta"])] if it["meta"] else [])))
+            meta = {k: v for k, v in it["meta"].items() if not (k == "version" and blk.get("untag"))}
+            lines.append(" ".join(names + sep + it["params"] + ([_meta_json(meta)] if meta else [])))
     return "\n".join(lines) + "\n"
 
 
